@@ -678,4 +678,120 @@ theorem pageGuars_ok (valid : Bytes → Bool) (N : Nat) (cols : List Col) (page 
     have := h3 g (List.mem_of_getElem? hg')
     simpa using this
 
+theorem strStats_min_le_max (utf8 : Bool) (valid : Bytes → Bool) (N : Nat) (vals : List Bytes) (m R : Bytes)
+    (hm : (strStats utf8 valid N vals).1 = some m) (hR : (strStats utf8 valid N vals).2 = some R) :
+    lexLe m R = true := by
+  obtain ⟨_, _, i3, i4, _, _⟩ := strFold_inv utf8 N vals ⟨none, none, false⟩
+  cases vals with
+  | nil => simp [strStats, strRaw] at hm
+  | cons v t =>
+    obtain ⟨m', hm', hle1⟩ := i3 v (List.mem_cons_self ..)
+    obtain ⟨M, hM, hle2⟩ := i4 v (List.mem_cons_self ..)
+    simp only [strStats, strRaw] at hm hR
+    rw [hm'] at hm
+    cases hm
+    simp only [strMax, hM] at hR
+    have hmM : lexLe m M = true := lexLe_trans m _ M hle1 hle2
+    cases htr : (List.foldl (strStep utf8 N) ⟨none, none, false⟩ (v :: t)).tr with
+    | false =>
+      simp only [htr, Bool.false_eq_true, if_false, Option.some.injEq] at hR
+      subst hR; exact hmM
+    | true =>
+      simp only [htr, if_true] at hR
+      have hMR : lexLt M R = true := by
+        cases utf8 with
+        | true =>
+          have := ext_lt_incU valid M [] M [] R (lexLe_refl M) (Nat.le_refl _) (by simpa using hR)
+          simpa using this
+        | false =>
+          have := ext_lt_inc M M [] R (lexLe_refl M) (Nat.le_refl _) (by simpa using hR)
+          simpa using this
+      exact lexLe_of_lt m R (lexLt_of_le_of_lt m M R hmM hMR)
+
+theorem floatStats_ordered (P : Int) (hP : 1 ≤ P) (vals : List Int) :
+    ∀ a b, canonLo P (floatStats P vals).1 = some a → canonHi P (floatStats P vals).2 = some b → a ≤ b := by
+  intro a b ha hb
+  by_cases hall : ∀ v ∈ vals, isNaN P v = true
+  · rw [floatStats_allNaN P hP vals hall] at ha
+    simp [canonLo] at ha
+  · have : ∃ v ∈ vals, isNaN P v = false := by
+      apply Classical.byContradiction
+      intro hne
+      apply hall
+      intro v hv
+      cases h : isNaN P v with
+      | true => rfl
+      | false => exact absurd ⟨v, hv, h⟩ hne
+    obtain ⟨v, hv, hn⟩ := this
+    obtain ⟨b1, b2⟩ := floatStats_bounds P hP vals v hv hn
+    rw [isNaN_false_iff] at hn
+    generalize floatStats P vals = r at *
+    obtain ⟨mn, mx⟩ := r
+    simp only at b1 b2 ha hb
+    simp only [canonLo] at ha
+    simp only [canonHi] at hb
+    split at ha
+    · cases ha
+    · split at hb
+      · cases hb
+      · split at ha <;> split at hb <;> simp only [Option.some.injEq] at ha hb <;> omega
+
+/-- INTERVAL WELL FORMED: `Interval::try_new(min, max).unwrap()` in extract_guarantees never panics — the lower bound
+    handed to DataFusion is `≤` the upper bound whenever both are present (all value classes, NaN and short utf8 cuts
+    included) -/
+theorem interval_ordered_aux (valid : Bytes → Bool) (N : Nat) (ct : CT) (cells : List Cell)
+    (hr : match ct with | .int lo hi => lo ≤ hi | .float P => 1 ≤ P | _ => True) (a b : Val)
+    (ha : mkLo ct (colStats valid N ct cells).mn = some a) (hb : mkHi ct (colStats valid N ct cells).mx = some b) :
+    a.le b = true := by
+  cases ct with
+  | int lo hi =>
+    simp only [colStats, mkLo, mkHi, Option.some.injEq] at ha hb
+    subst ha hb
+    rw [Val.int_le]
+    simp only at hr
+    cases hv : intsOf cells with
+    | nil => simp [intStats]; exact hr
+    | cons x t =>
+      have := intStats_bounds lo hi (x :: t) x (List.mem_cons_self ..)
+      omega
+  | float P =>
+    simp only [colStats, mkLo, mkHi] at ha hb
+    cases ha' : canonLo P (floatStats P (intsOf cells)).1 with
+    | none => rw [ha'] at ha; cases ha
+    | some x =>
+      cases hb' : canonHi P (floatStats P (intsOf cells)).2 with
+      | none => rw [hb'] at hb; cases hb
+      | some y =>
+        rw [ha'] at ha; rw [hb'] at hb
+        simp only [Option.map_some, Option.some.injEq] at ha hb
+        subst ha hb
+        rw [Val.int_le]
+        exact floatStats_ordered P hr (intsOf cells) x y ha' hb'
+  | bin =>
+    simp only [colStats, mkLo, mkHi] at ha hb
+    cases h1 : (strStats false valid N (bytesOf cells)).1 with
+    | none => rw [h1] at ha; cases ha
+    | some m =>
+      cases h2 : (strStats false valid N (bytesOf cells)).2 with
+      | none => rw [h2] at hb; cases hb
+      | some R =>
+        rw [h1] at ha; rw [h2] at hb
+        simp only [Option.map_some, Option.some.injEq] at ha hb
+        subst ha hb
+        rw [Val.bytes_le]
+        exact strStats_min_le_max false valid N _ m R h1 h2
+  | utf8 =>
+    simp only [colStats, mkLo, mkHi] at ha hb
+    cases h1 : (strStats true valid N (bytesOf cells)).1 with
+    | none => rw [h1] at ha; cases ha
+    | some m =>
+      cases h2 : (strStats true valid N (bytesOf cells)).2 with
+      | none => rw [h2] at hb; cases hb
+      | some R =>
+        rw [h1] at ha; rw [h2] at hb
+        simp only [Option.map_some, Option.some.injEq] at ha hb
+        subst ha hb
+        rw [Val.bytes_le]
+        exact strStats_min_le_max true valid N _ m R h1 h2
+
 end LanceModel.C29
